@@ -9,11 +9,11 @@ Trace == ndJsonDeserialize(IOEnv.TRACE_FILE)
 
 VARIABLES l, sess, nrej
 
-ClauseNames == <<"V1", "V2", "V3", "F1", "F2", "D1", "S1", "G0", "G1", "G2", "M1", "M2", "M3">>
+ClauseNames == <<"V1", "V2", "V3", "F1", "F2", "D1", "S1", "S1x", "G0", "G1", "G2", "M1", "M2", "M3">>
 
 Clauses(e, s) ==
   [V1 |-> V1(e), V2 |-> V2(e), V3 |-> V3(e, s), F1 |-> F1(e, s), F2 |-> F2(e),
-   D1 |-> D1(e, s), S1 |-> S1(e), G0 |-> G0(e, s), G1 |-> G1(e, s), G2 |-> G2(e, s),
+   D1 |-> D1(e, s), S1 |-> S1(e), S1x |-> S1x(e), G0 |-> G0(e, s), G1 |-> G1(e, s), G2 |-> G2(e, s),
    M1 |-> M1(e, s), M2 |-> M2(e, s), M3 |-> M3(e, s)]
 
 Failing(e, s) == LET c == Clauses(e, s) IN SelectSeq(ClauseNames, LAMBDA n : ~c[n])
